@@ -169,7 +169,7 @@ def panic_grid(seed=0):
     for m in METHODS9:
         for pol in POLICIES:
             for la in lats:
-                for d in dates[:4] if pol not in ("None",) else dates:
+                for d in dates:
                     cases.append(api_case(la, 10.0, 1.0, d, m, ext_json(pol, 48.5), "SpecialRounding"))
     return cases
 
@@ -195,6 +195,45 @@ def run_panic_grid(rep, key_hint="interval-unwrap"):
     return bool(found)
 
 
+def _good_day_judge(found, lat, lon, gmt, method, dates, conv, idx, tag=""):
+    """dates/conv: a window of consecutive dates with their conventional (policy None, unrounded) results; idx: positions to test under
+    both good-day policies. Expected: flagged values of the closest date of the window on which both twilights exist (earlier on ties)."""
+    ndays = len(dates)
+    valid = [("times" in r and r["times"]["Fajr"] is not None and r["times"]["Isha"] is not None) for r in conv]
+    for pol in GOOD:
+        test = replay.run([api_case(lat, lon, gmt, dates[k], method, pol) for k in idx])
+        for k, r in zip(idx, test):
+            if "times" not in r:
+                found.setdefault("good-day-panic", []).append(("panic/timeout under %s" % pol, api_case(lat, lon, gmt, dates[k], method, pol), r))
+                continue
+            c = conv[k]["times"]
+            missing = [p for p in ("Fajr", "Isha") if c[p] is None]
+            if not missing and pol.endswith("Invalid"):
+                continue
+            best = None
+            for dd in range(0, 190):
+                for s in (-1, 1):
+                    j = k + s * dd
+                    if 0 <= j < ndays and valid[j]:
+                        best = j
+                        break
+                if best is not None:
+                    break
+                if k - dd < 0 or k + dd >= ndays:
+                    break      # the window does not show which side is closer
+            if best is None:
+                continue
+            g = conv[best]["times"]
+            targets = missing if pol.endswith("Invalid") else ["Fajr", "Isha"]
+            for p in targets:
+                t = r["times"][p]
+                if t is None or not t["extreme"] or abs(t["secs"] - g[p]["secs"]) > 1:
+                    key = "good-day-not-found" if t is None else "good-day-wrong-value"
+                    found.setdefault(key, []).append((
+                        "%s at lat %s on %s (%s)%s: %s = %s, closest good day %s has %s" % (pol, lat, dates[k], method, tag, p, t, dates[best], g[p]),
+                        api_case(lat, lon, gmt, dates[k], method, pol), r))
+
+
 def good_day_grid(rep):
     """Public-API judge for C09: per (lat, method) compute the conventional (policy None, unrounded) validity of every day of two
     years, then compare the good-day policies' Fajr/Isha with the closest good day's conventional values."""
@@ -205,44 +244,47 @@ def good_day_grid(rep):
     for lat, method in combos:
         dates = [(d0 + datetime.timedelta(days=k)).isoformat() for k in range(ndays)]
         conv = replay.run([api_case(lat, 10.0, 1.0, d, method, "None") for d in dates])
-        valid = [("times" in r and r["times"]["Fajr"] is not None and r["times"]["Isha"] is not None) for r in conv]
-        for pol in GOOD:
-            idx = list(range(184, 184 + 366))     # every day of calendar 2023 (covers mid-gap tie dates and early January)
-            test = replay.run([api_case(lat, 10.0, 1.0, dates[k], method, pol) for k in idx])
-            for k, r in zip(idx, test):
-                if "times" not in r:
-                    found.setdefault("good-day-panic", []).append(("panic/timeout under %s" % pol, api_case(lat, 10.0, 1.0, dates[k], method, pol), r))
-                    continue
-                c = conv[k]["times"]
-                missing = [p for p in ("Fajr", "Isha") if c[p] is None]
-                if not missing and pol.endswith("Invalid"):
-                    continue
-                if not missing and not pol.endswith("Invalid") is False:
-                    pass
-                # closest good day, earlier first
-                best = None
-                for dd in range(0, 190):
-                    for s in (-1, 1):
-                        j = k + s * dd
-                        if 0 <= j < ndays and valid[j]:
-                            best = j
-                            break
-                    if best is not None:
-                        break
-                if best is None:
-                    continue
-                g = conv[best]["times"]
-                targets = missing if pol.endswith("Invalid") else ["Fajr", "Isha"]
-                for p in targets:
-                    t = r["times"][p]
-                    if t is None or not t["extreme"] or abs(t["secs"] - g[p]["secs"]) > 1:
-                        key = "good-day-not-found" if t is None else "good-day-wrong-value"
-                        found.setdefault(key, []).append((
-                            "%s at lat %s on %s (%s): %s = %s, closest good day %s has %s" % (pol, lat, dates[k], method, p, t, dates[best], g[p]),
-                            api_case(lat, 10.0, 1.0, dates[k], method, pol), r))
+        idx = list(range(184, 184 + 366))     # every day of calendar 2023 (covers mid-gap tie dates and early January)
+        _good_day_judge(found, lat, 10.0, 1.0, method, dates, conv, idx)
+    good_day_boundary(found)
     for key, items in found.items():
         rep.violation(key, items[0][0] + " (+%d more)" % (len(items) - 1), [x[1] for x in items[:5]], items[0][2])
     return bool(found)
+
+
+BOUNDARY_SITES = [  # (hemisphere, good date G at the edge of the twilight-less season, lon, gmt, method)
+    (1, "2023-05-20", 10.0, 1.0, "Shafi"), (1, "2023-07-27", -0.1278, 0.0, "Shafi"), (1, "2025-08-12", 24.94, 2.0, "Isna"),
+    (1, "2024-04-28", -122.0, -8.0, "Egyptian"), (-1, "2024-11-18", -68.3, -3.0, "Hanafi"), (-1, "2025-02-01", -68.3, -3.0, "Shafi"),
+    (-1, "2023-12-31", 170.0, 12.0, "Isna"), (1, "2024-06-05", 30.0, 3.0, "Isna"),
+]
+
+
+def good_day_boundary(found):
+    """Boundary-directed candidates: for a date G, bisect (through the public API, policy None) the latitude at which G stops being a
+    good day, then test the good-day policies just on the valid side of it (1e-5..1.5e-3 degrees), where G is a good day by the
+    smallest margins. A second, slightly different validity criterion inside the search (test_fajr_isha wiring) shows up here."""
+    W = 50
+    for sign, G, lon, gmt, method in BOUNDARY_SITES:
+        g = datetime.date.fromisoformat(G)
+
+        def valid(lat, d=G):
+            r = replay.run([api_case(lat, lon, gmt, d, method, "None")])[0]
+            return "times" in r and r["times"]["Fajr"] is not None and r["times"]["Isha"] is not None
+        lo, hi = 40.0, 66.0
+        if not valid(sign * lo) or valid(sign * hi):
+            continue
+        for _ in range(34):
+            mid = (lo + hi) / 2
+            if valid(sign * mid):
+                lo = mid
+            else:
+                hi = mid
+        dates = [(g + datetime.timedelta(days=k)).isoformat() for k in range(-W, W + 1)]
+        for delta in (1e-5, 1e-4, 5e-4, 1.5e-3):
+            lat = sign * (lo - delta)
+            conv = replay.run([api_case(lat, lon, gmt, d, method, "None") for d in dates])
+            idx = list(range(W - 12, W + 13))
+            _good_day_judge(found, lat, lon, gmt, method, dates, conv, idx, tag=" [%g deg inside the latitude where %s stops being a good day]" % (delta, G))
 
 
 def imsaak_grid(rep):
@@ -334,3 +376,26 @@ def nearest_lat_grid(rep):
     for key, items in found.items():
         rep.violation(key, items[0][0] + (" (+%d more)" % (len(items) - 1) if len(items) > 1 else ""), [x[1] for x in items[:5]], items[0][2])
     return bool(found)
+
+
+def purity_native(rep):
+    """Assumption check (native, not solver-decided): prayer_times_dt is history independent - the same call returns the same result
+    when made in a fresh process and when made after calls for other places / GMT offsets / dates in the same process and thread.
+    Every solver-decided claim treats the computation as a pure function of its arguments."""
+    def mk(lat, lon, gmt, d, ext="None"):
+        return api_case(lat, lon, gmt, d, "Isna", ext, "None")
+    probes = [mk(40.0, -74.0, -5.0, d) for d in ("2024-12-09", "2024-12-10", "2024-12-11", "2024-12-12")] + \
+             [mk(52.0, 13.4, 1.0, "2024-06-20", "NearestGoodDayFajrIshaInvalid"), mk(21.4, 39.8, 3.0, "2024-03-20")]
+    noise = [mk(35.7, 139.7, 9.0, "2024-12-10"), mk(-33.9, 151.2, 10.0, "2024-12-11"), mk(40.0, -74.0, -4.0, "2024-12-10"),
+             mk(64.0, -21.9, 0.0, "2024-06-20", "NearestGoodDayAllPrayersAlways"), mk(21.4, 39.8, 2.0, "2024-03-20")]
+    alone = [replay.run([p])[0] for p in probes]
+    mixed = replay.run(noise + probes + noise + list(reversed(probes)))
+    after = mixed[len(noise):len(noise) + len(probes)]
+    again = list(reversed(mixed[2 * len(noise) + len(probes):]))
+    for p, a, b, c in zip(probes, alone, after, again):
+        if a.get("times") != b.get("times") or a.get("times") != c.get("times"):
+            rep.violation("hidden-state", "prayer_times_dt(%s, lat %s, gmt %s) returns different results depending on earlier calls in the same process" %
+                          (p["date"], p["lat"], p["gmt"]), noise + [p], {"alone": a, "after_other_calls": b if a.get("times") != b.get("times") else c})
+            return True
+    rep.assumptions.append("history independence of prayer_times_dt checked natively on %d probe calls interleaved with %d calls for other places/offsets" % (len(probes), len(noise)))
+    return False
